@@ -15,8 +15,9 @@ from lib import tlc, build, tracev
 from lib.ctx import MachineryError
 from harness.mt import mtlib
 
-QUICK_MC = ["q_plain", "q_flush", "q_fail", "q_timeout", "nw1", "live", "reinit", "reinit_fixed", "reinit_bs", "reinit_bs_fixed"]
-ALL_MC = ["plain", "bs1", "flush", "q_barrier", "fail", "spur", "timeout", "nw1", "live", "reinit", "reinit_fixed", "reinit_fixed3", "reinit_bs", "reinit_bs_fixed", "update"]
+QUICK_MC = ["q_plain", "q_flush", "q_fail", "q_timeout", "nw1", "live", "reinit", "reinit_fixed", "reinit_bs", "reinit_bs_fixed",
+            "reinit_nw_up", "reinit_nw_down"]
+ALL_MC = ["plain", "bs1", "flush", "q_barrier", "fail", "spur", "timeout", "nw1", "live", "reinit", "reinit_fixed", "reinit_fixed3", "reinit_bs", "reinit_bs_fixed", "reinit_nw_up", "reinit_nw_down", "update"]
 
 def model_check(ctx):
     names = QUICK_MC if ctx.quick else ALL_MC
@@ -141,6 +142,12 @@ def run(ctx):
                     p4 = dict(p, seed=seed + 17, endafter=-1, reinit_after=rng.randint(1, 6), reinit_blocksize=nbs, watchdog=12)
                     jobs.append((g, p4, acts))
                     jobs.append((g, dict(p4, seed=seed + 19, reinit_after=rng.randint(3, 12), asan=1), acts))
+                    # ... and with another thread count (more / fewer), block_size unchanged or changed too
+                    nthr = nw + 1 if rng.random() < 0.5 or nw == 1 else nw - 1
+                    p5 = dict(p, seed=seed + 23, endafter=-1, reinit_after=rng.randint(1, 8), reinit_threads=nthr, watchdog=12)
+                    if rng.random() < 0.4:
+                        p5["reinit_blocksize"] = nbs
+                    jobs.append((g, p5, acts))
     def exec_job(idx):
         g, params, acts = jobs[idx]
         p = {k: v for k, v in params.items() if not (k == "actions" and v == "") and k != "asan"}
@@ -157,6 +164,7 @@ def run(ctx):
         label = "%s:T%d:bs%d:to%d:seed%d:%s%s" % (g["inp"], g["nw"], g["bs"], g["timeout"], params["seed"], params["actions"],
                                                   (":reinit%d" % params["reinit_after"] if "reinit_after" in params else "") +
                                                   (":bs%d" % params["reinit_blocksize"] if "reinit_blocksize" in params else "") +
+                                                  (":thr%d" % params["reinit_threads"] if "reinit_threads" in params else "") +
                                                   (":asan" if params.get("asan") else ""))
         # block_size in effect for the Stream that is finished (the run may end before the re-initialisation is due)
         did_reinit = any(e["e"] == "Reinited" for e in res["events"])
@@ -283,7 +291,7 @@ def run(ctx):
     def validate_group(g):
         if not g["runs"]:
             return g, None
-        cfgline = dict(e="Config", nw=g["nw"], bs=g["bs"], total=len(g["data"]), timeout=bool(g["timeout"]))
+        cfgline = dict(e="Config", nw=g["nw"], nwmax=g["nw"] + 1, bs=g["bs"], total=len(g["data"]), timeout=bool(g["timeout"]))
         sub = type(ctx)(ctx.pid, ctx.tier, ctx.seed)
         sub.workdir = os.path.join(ctx.workdir, "g%d" % id(g)); os.makedirs(sub.workdir, exist_ok=True)
         sub.findings = ctx.findings
